@@ -2,6 +2,7 @@
     Only property theorems, each closed by [exact]. *)
 From Coq Require Import List Arith Bool.
 From RLV Require Import Model.Loop Proofs.LoopProofs.
+From RLV Require Model.Sched Proofs.SchedProofs.
 Import ListNotations.
 
 (** never more environment steps than the remaining budget; the returned counter equals the
@@ -69,3 +70,25 @@ Theorem C11_ducb_maximises : forall (ub g zeta : R) n, 0 < n -> forall hist, 2 *
   forall arm, arm < n -> (dscore ub g zeta n hist arm <= dscore ub g zeta n hist (ducb_choose ub g zeta n hist))%R.
 Proof. exact ducb_maximises. Qed.
 Print Assumptions C11_ducb_maximises.
+
+(** The warm-up handed to the backbone by the multi-task schedulers (Model/Sched.v): for every sequence of
+    scheduled episode lengths, budget and warm-up, a backbone that updates once its absolute step counter
+    has reached the learning_starts it is given performs exactly the updates of the executed steps from
+    the scheduler's warm-up on - none before it - and the final counter stays within the budget.
+    Handing over "the remaining exploration steps" instead breaks this. *)
+Theorem C11_scheduler_warmup : forall (warm budget : nat) (lens : list nat) (g : nat),
+  let r := RLV.Model.Sched.sched_run RLV.Model.Sched.PassThrough warm budget lens g in
+  fst r = filter (fun s => Nat.leb warm s) (seq g (snd r - g)) /\
+  Forall (fun s => warm <= s) (fst r) /\ g <= snd r /\ (g <= budget -> snd r <= budget).
+Proof.
+  exact (fun warm budget lens g =>
+    conj (RLV.Proofs.SchedProofs.sched_pass_through_updates warm budget lens g)
+      (conj (RLV.Proofs.SchedProofs.sched_pass_through_no_early_update warm budget lens g)
+        (conj (RLV.Proofs.SchedProofs.sched_run_final_ge _ warm budget lens g)
+              (RLV.Proofs.SchedProofs.sched_run_final_le _ warm budget lens g)))).
+Qed.
+Print Assumptions C11_scheduler_warmup.
+Theorem C11_scheduler_remaining_warmup_refuted :
+  exists warm budget lens, ~ Forall (fun s => warm <= s) (fst (RLV.Model.Sched.sched_run RLV.Model.Sched.Remaining warm budget lens 0)).
+Proof. exact RLV.Proofs.SchedProofs.sched_remaining_refuted. Qed.
+Print Assumptions C11_scheduler_remaining_warmup_refuted.
